@@ -57,11 +57,15 @@ def iteration_local(rep, rule, f: FuncInfo, loop: ast.For, ctor: ast.Call) -> Di
 class Subst(ast.NodeTransformer):
     def __init__(self, env):
         self.env = env
+        self.active = []
 
     def visit_Name(self, n):
-        if isinstance(n.ctx, ast.Load) and n.id in self.env:
+        if isinstance(n.ctx, ast.Load) and n.id in self.env and n.id not in self.active and len(self.active) < 12:
             import copy
-            return self.visit(copy.deepcopy(self.env[n.id]))
+            self.active.append(n.id)
+            r = self.visit(copy.deepcopy(self.env[n.id]))
+            self.active.pop()
+            return r
         return n
 
 
